@@ -30,8 +30,10 @@ def drive(sc):
         vlb, vub = [-INF] * 3, [INF] * 3
     elif method == "differential_evolution":
         vlb, vub = [-3.0, -4.0, -3.0], [3.0, 5.0, 4.0]
+    elif sc.get("vb") == "onesided":          # no variable is bounded on both sides
+        vlb, vub = [-1.0, -INF, -INF], [INF, 5.0, 2.0]
     else:
-        vlb, vub = [-3.0, -INF, 0.0 if False else -INF], [3.0, 5.0, INF]
+        vlb, vub = [-1.0, -INF, -INF], [3.0, 5.0, 2.0]
     cfg = {"variables": {"initial_values": [0.0, 1.0, 0.0], "lower_bounds": vlb, "upper_bounds": vub},
            "optimizer": {"method": "rvscipy/" + method},
            "gradient": {"number_of_perturbations": 4, "perturbation_magnitudes": 0.01}}
@@ -45,6 +47,9 @@ def drive(sc):
         cfg["optimizer"]["options"] = {"disp": False}
     if nnl:
         cfg["nonlinear_constraints"] = {"lower_bounds": [KB[k][0] for k in sc["nl"]], "upper_bounds": [KB[k][1] for k in sc["nl"]]}
+        if sc.get("narrow"):                  # a two-sided band of relative width 1e-6: still two inequalities, not an equality
+            cfg["nonlinear_constraints"]["lower_bounds"][0] = -1.0
+            cfg["nonlinear_constraints"]["upper_bounds"][0] = -1.0 + 1e-6
     if nlin:
         cfg["linear_constraints"] = {"coefficients": LIN_A[:nlin].tolist(), "lower_bounds": [KB[k][0] for k in sc["lin"]],
                                      "upper_bounds": [KB[k][1] for k in sc["lin"]]}
@@ -54,6 +59,7 @@ def drive(sc):
         return EvaluatorResult(objectives=variables.sum(axis=1, keepdims=True), constraints=cons)
 
     e = {"ev": "Handed", "method": method, "mask": sc["mask"], "nl": sc["nl"], "lin": sc["lin"], "options": sc["options"],
+         "narrow": bool(sc.get("narrow", False)),
          "maxit": sc["maxit"], "vlb": [q(b) for b in vlb], "vub": [q(b) for b in vub], "grid": GRID, "outcome": "ok",
          "bounds": {"present": False, "lb": [], "ub": []}, "rows": [], "objs": [], "opt": {"maxiter": -1, "maxfun": -1}}
 
